@@ -21,7 +21,6 @@ import (
 	"syscall"
 	"time"
 
-	"go.uber.org/zap"
 	"golang.org/x/crypto/ocsp"
 
 	"github.com/gr33nbl00d/caddy-revocation-validator/config"
@@ -421,7 +420,7 @@ func ocspWorkload(wl workload, dir string) {
 	}))
 	mk := func(d time.Duration) *repoocsp.OCSPRevocationChecker {
 		c := &repoocsp.OCSPRevocationChecker{}
-		_ = c.Provision(&config.OCSPConfig{OCSPAIAStrict: true, DefaultCacheDurationParsed: d, TrustedResponderCerts: []*x509.Certificate{}}, zap.NewNop())
+		_ = c.Provision(&config.OCSPConfig{OCSPAIAStrict: true, DefaultCacheDurationParsed: d, TrustedResponderCerts: []*x509.Certificate{}}, l2.DebugLogger())
 		return c
 	}
 	checkers := []*repoocsp.OCSPRevocationChecker{mk(30 * time.Millisecond), mk(5 * time.Millisecond)}
